@@ -139,6 +139,12 @@ func runC01(c *core.Ctx) {
 		c.Count("keytype:float", 1)
 		runKVCase(c, kind, FKeyDom(c.R.Range(4, 12)), floatKey, func(m *KVMon[float64, int]) { m.Map = true; m.Bidi = m.Inv != nil })
 		return
+	case kt == 7 && (c.Index/30)%2 == 0:
+		// pointer keys (never nil) under comparators that need not accept nil
+		c.Count("keytype:pointer", 1)
+		pd, pkey := PKDom(c.R.Range(4, 12))
+		runKVCase(c, kind, pd, pkey, func(m *KVMon[*PK, int]) { m.Map = true; m.Bidi = m.Inv != nil })
+		return
 	case kt == 7 && (c.Index/30)%2 == 1:
 		// int keys from the whole range of the type: negatives, both extremes,
 		// pairs further apart than MaxInt (comparison by subtraction wraps)
